@@ -184,4 +184,43 @@ theorem popTrailingWs_fixed (l : List FNode) (h : ∀ x, (popTrailingWs l).getLa
   | none => rfl
   | some x => simp [h x hm]
 
+/-! ## KF-C10-5: the parenthesis rule holds for children, not for leaves -/
+
+namespace FNode
+mutual
+/-- structural equality of trees (cached values included) -/
+def same : FNode → FNode → Bool
+  | .tok t v, .tok t' v' => t == t' && v == v'
+  | .grp c cv ks, .grp c' cv' ks' => c == c' && cv == cv' && sameL ks ks'
+  | _, _ => false
+def sameL : List FNode → List FNode → Bool
+  | [], [] => true
+  | k :: ks, k' :: ks' => same k k' && sameL ks ks'
+  | _, _ => false
+end
+end FNode
+
+/-- the grouped tree of `(a -- c\n\n)`: the second line break sits inside the `Comment` group -/
+def kf5Tree : FNode :=
+  .grp .Statement [] [.grp .Parenthesis [] [
+    .tok T.Punctuation [40],
+    .grp .Identifier [] [.tok T.Name [97], .tok T.Whitespace [32],
+      .grp .Comment [] [.tok T.CommentSingle [45, 45, 32, 99, 10], .tok T.Newline [10]]],
+    .tok T.Punctuation [41]]]
+
+/-- **KF-C10-5, tree level.**  One pass over `(a -- c\n\n)` gives the text `(a -- c\n )`: the line break inside the `Comment`
+group has become a blank, two levels below the parenthesis, where `_stripws_parenthesis` (which trims only the children of its
+last-but-one child) does not reach it.  On this *tree* a second pass changes nothing; the second `format()` call differs only
+because it re-lexes the text, and then the blank is a direct child of the parenthesis. -/
+theorem kf5_tree_fixed_but_blank_before_close :
+    (match stripWhitespace 10 kf5Tree with
+     | .ok n1 =>
+       n1.text == [40, 97, 32, 45, 45, 32, 99, 10, 32, 41] &&
+       (match stripWhitespace 10 n1 with
+        | .ok n2 => FNode.same n1 n2
+        | .error _ => false)
+     | .error _ => false) = true := by
+  decide
+
+
 end Sql
